@@ -142,6 +142,14 @@ def cases(tier, seed):
                          **({"min_preconditioning_size": 1, "max_preconditioner_size": rnd.choice([5, 15])} if j % 2 else {})},
             "seed": rnd.randrange(10**6),
         }
+    # an exact prediction after a LOW-RANK fast-variance prediction on the same model (its root caches stay behind)
+    for j in range(6 if tier == "quick" else 60):
+        yield {
+            "kernel": rnd.choice([KERNELS[0], KERNELS[2], KERNELS[4]]), "mean": rnd.choice(MEANS), "lik": rnd.choice(["gauss", "fixed"]), "n": rnd.choice([12, 20]), "d": 2, "ns": 3,
+            "pbatch": [], "xbatch": [], "tbatch": [], "lowrank_fast_first": True,
+            "settings": {"lazily_evaluate_kernels": True, "max_eager_kernel_size": "above", "max_cholesky_size": 0, "fast_pred_var": False, "detach_test_caches": rnd.random() < 0.5},
+            "seed": rnd.randrange(10**6),
+        }
     # directed hostile geometry: duplicated training rows, test point equal to a training point
     for j in range(12 if tier == "quick" else 200):
         yield {
@@ -355,6 +363,12 @@ def run_case(case, ctx):
     _ST["settings_at_call"] = sd
     _ST["nontrivial"] = False
     _before = [t_.detach().clone() for t_ in (X, y, xs)]
+    if case.get("lowrank_fast_first"):
+        from vf import attach
+
+        with attach.quiet(), torch.no_grad(), util.settings_ctx(dict(sd, fast_pred_var=True), tight=True, n=joint), S.max_root_decomposition_size(4):
+            model(xs)  # a rank-4 LOVE prediction (solves converged as in every other cell): the documented approximation, not compared
+        ctx.hit("lowrank_fast_call_first")
     try:
         with util.settings_ctx(sd, tight=True, n=joint):
             try:
@@ -413,6 +427,15 @@ def run_case(case, ctx):
                     xs.copy_(xs + 0.37 * util.randn(util.gen(case["seed"] + 5), *xs.shape))
                 model(xs)
                 ctx.hit("second_call_refilled_buffer")
+            if case["seed"] % 2 == 1 and sd.get("fast_pred_var") and not sd.get("skip_posterior_variances") and "multitask" not in case:
+                # the same model object next under the EXACT setting (fast_pred_var off) after a fast-variance call left its
+                # (possibly low-rank) root caches behind: decided by the same post-condition with the exact tolerances
+                sd2 = dict(sd, fast_pred_var=False)
+                _ST["settings_at_call"] = sd2
+                with S.fast_pred_var(False):
+                    model(xs)
+                _ST["settings_at_call"] = sd
+                ctx.hit("second_call_exact_after_fast")
     finally:
         _ST["case"] = None
     cell = {k: v for k, v in case.items() if k not in ("seed", "hostile")}
